@@ -595,6 +595,14 @@ class SolverActor:
             if fault.get("when", "before") == "after":
                 functionValue.value = v
             w.log("eval", self.aid, "%d %s %s RAISE %s%s" % (idx, phase, vhex(y), fault["exc"], " noargs" if fault.get("noargs") else ""))
+            if fault.get("strict_warnings") and getattr(w, "_strict_cw", None) is None:
+                # ambient fault: the process runs with warnings configured as errors (python -W error, pytest's
+                # filterwarnings=error) from the moment of the failure until the driver op returns
+                import warnings as _wn
+                w._strict_cw = _wn.catch_warnings()
+                w._strict_cw.__enter__()
+                _wn.simplefilter("error")
+                w.fired["warnings_as_errors_while_failure_is_handled"] += 1
             if fault["exc"] == "LibraryIndexError":
                 # a failure that is RAISED INSIDE LIBRARY CODE: the user's objective wraps a shipped benchmark and hands it
                 # a point with a coordinate missing - the IndexError's innermost frame lies in iOpt/problems/rastrigin.py
@@ -1192,6 +1200,9 @@ class World:
             a.active = False
             a.cb_depth = 0
         a._resolve_pending()
+        if getattr(self, "_strict_cw", None) is not None:
+            self._strict_cw.__exit__(None, None, None)
+            self._strict_cw = None
         a.sync()
         if outcome["raised"] is not None:
             # was it float exhaustion?  (every property is silent about it)
